@@ -129,6 +129,38 @@ pub fn sweep(rep: &mut Report, flags: Flags, part_name: &str, filter: &dyn Fn(&s
                     }
                 });
             }
+            // fifth pass (best-so-far only): an objective function that is not a pure function of the solution (additive noise
+            // that depends on the call number), evaluated by mahf's Parallel evaluator: the reported best is still the
+            // minimum of the values the function returned
+            if flags.c07 && !flags.c05 && !flags.c06 && *seed == sc.seeds[0] {
+                let mut cfg5 = tape_cfg(&sc, &spec.name(), *seed, *i);
+                cfg5.stride = 4;
+                cfg5.offset = *i % 4;
+                for (evname, ev) in [("sequential", EvKind::Sequential), ("parallel", EvKind::Parallel(4))] {
+                    let body5 = || {
+                        crate::subject::templates::NOISY_OBJECTIVE.with(|v| v.set(true));
+                        let r = spec.run(flags, &ev);
+                        crate::subject::templates::NOISY_OBJECTIVE.with(|v| v.set(false));
+                        r
+                    };
+                    tape::explore_par(&cfg5, &body5, &|prefix, out, _log| {
+                        let mut sub = sub.lock().unwrap();
+                        sub.traces += 1;
+                        match out {
+                            Outcome::Done(o) => {
+                                sub.transitions += o.steps;
+                                for (sig, d) in &o.violations {
+                                    sub.violate(sig.clone(), format!("{} [objective function with call-dependent noise, {} evaluator]", d, evname), json!({"spec": spec.name(), "tape": prefix, "seed": seed, "menu": sc.menu.len(), "flags": flags_json(flags), "iters": sc.iters, "thorough": sc.thorough, "noisy": evname}));
+                                }
+                            }
+                            Outcome::Panic(m) => sub.machinery(format!("harness panic outside the subject in {}: {}", spec.name(), m.chars().take(200).collect::<String>())),
+                            Outcome::Truncated => sub.truncated += 1,
+                            // (a subject that evaluates one solution twice concurrently makes the noise assignment racy: not this pass's concern)
+                            Outcome::Diverged(_) => sub.truncated += 1,
+                        }
+                    });
+                }
+            }
             // fourth pass: "iteration budget or optimum reached" as termination condition, on instances whose optimum
             // value cannot be reached: the budget alone decides, exactly as before
             if flags.c16 && *seed == sc.seeds[0] && spec.optimum_unreachable() {
@@ -248,6 +280,20 @@ pub fn replay(case: &Value) -> Result<Vec<(String, String)>, String> {
         Some(k) => EvKind::Parallel(k as usize),
         None => EvKind::Sequential,
     };
+    if let Some(evname) = case["noisy"].as_str() {
+        let ev = if evname == "parallel" { EvKind::Parallel(4) } else { EvKind::Sequential };
+        let (out, _) = tape::run_once(&cfg, &tape, || {
+            crate::subject::templates::NOISY_OBJECTIVE.with(|v| v.set(true));
+            let r = spec.run(flags, &ev);
+            crate::subject::templates::NOISY_OBJECTIVE.with(|v| v.set(false));
+            r
+        });
+        return match out {
+            Outcome::Done(o) => Ok(o.violations),
+            Outcome::Panic(m) => Err(format!("harness panic: {}", m)),
+            _ => Ok(vec![]),
+        };
+    }
     let cv = case["cond_variant"].as_u64().unwrap_or(0) as u8;
     let (out, _) = tape::run_once(&cfg, &tape, || {
         crate::subject::templates::COND_VARIANT.with(|v| v.set(cv));
